@@ -2,6 +2,9 @@ package verifh
 
 import (
 	"encoding/hex"
+
+	"github.com/spf13/afero"
+
 	"os"
 	"path/filepath"
 	"strings"
@@ -224,6 +227,50 @@ func TestC02(t *testing.T) {
 		for _, g := range G {
 			for _, crit := range []bool{false, true} {
 				run(o, []Req{open, mk(crit, g)})
+			}
+		}
+		// underlying filesystem returns short reads all the time (at most `cap` bytes per Read): served bytes must
+		// not change (views re-read partial sectors, the image builder must loop)
+		caps := []int{2047}
+		if r.Thorough() {
+			caps = []int{1, 16, 2047}
+		}
+		for _, cp := range caps {
+			for gi, g := range G {
+				if gi%5 != 0 || (cp == 1 && g.n > 4096) {
+					continue
+				}
+				for _, crit := range []bool{false, true} {
+					idx++
+					if !r.Mine(idx) {
+						continue
+					}
+					cp := cp
+					reqs := []Req{open, mk(crit, g), mk(!crit, g)}
+					m := mkModel()
+					res := runSession(t, SrvOpts{Root: w.Root, LeafWrap: func(inner afero.Fs) afero.Fs {
+						v := newVFs(inner, "cap")
+						v.record = false
+						v.Hook = func(e FsEvent) *FsFault {
+							if e.Op == "Read" {
+								return &FsFault{Short: cp}
+							}
+							return nil
+						}
+						return v
+					}}, m, reqs, Delivery{})
+					r.Transition(int64(len(res.Steps)))
+					r.Eval(1)
+					key := sprintf("%s|cap%d|%s", o.path, cp, strings.Join(reqStrings(reqs), ","))
+					r.State(key)
+					r.Nontrivial(key)
+					for _, st := range res.Steps {
+						r.Outcome(o.kind + ":short-reads:" + st.Class)
+					}
+					if res.Why != "" {
+						r.Violation("C02:"+o.kind+":short-reads:"+res.WhySig, sprintf("%s with every underlying Read capped at %d bytes: %s", o.path, cp, res.Why), map[string]any{"object": o.path, "read_cap": cp, "requests": reqs, "steps": res.Steps})
+					}
+				}
 			}
 		}
 		// hidden-cursor family: another file is read up to position P, then this object is opened (without
